@@ -18,6 +18,7 @@ const (
 	kfOpenBuilt = "KF-C13-open-builtin-ids"
 	kfTOCRemove = "KF-C13-toc-removed-style"
 	kfTblOpened = "KF-C13-tblstyle-opened"
+	kfRenderFrz = "KF-C13-styles-frozen-rendered"
 )
 
 var reTOCID = regexp.MustCompile(`^(1[2-9]|2[01])$`)
@@ -50,6 +51,7 @@ type at struct {
 	saved               bool
 	opened              bool // the current document object came from Open/OpenFromMemory (its styles part was loaded, not generated)
 	freshLists, freshNt bool
+	rendered            bool // the current document object is the result of a template render
 }
 
 func walk(c Case, f func(op Op, s at) bool) bool {
@@ -78,6 +80,9 @@ func walk(c Case, f func(op Op, s at) bool) bool {
 			if notes > 0 {
 				s.freshNt = true
 			}
+		case op.K == "render":
+			// the rendered copy replaces its base: it carries over what the base was (saved / opened, lists, notes)
+			s.rendered = true
 		case op.K == "md":
 			s = at{}
 			lists, notes = 0, 0
@@ -126,6 +131,32 @@ var findings = []kit.Finding[Case]{
 		},
 	},
 	{
+		ID:     kfRenderFrz,
+		Clause: "C13.X",
+		Desc:   "a document rendered (LoadTemplateFromDocument + RenderTemplateToDocument) from a base document that was created with New and saved before gets the base's generated word/styles.xml as a verbatim part: styles created or changed through the style API, and table styles applied, after the base's last save never reach the rendered document's styles part",
+		// input class: a render op whose base is a saved, never opened document object; the failing id is a style that the styles part
+		// of the base's last save did not have (X1) or that a style-API op touched on such a rendered document (X4)
+		Trigger: func(c Case, f kit.Failure) bool {
+			kind, _, flags, ok := parse(f)
+			if !ok {
+				return false
+			}
+			switch f.Clause {
+			case "C13.X4", "C13.X4.attr":
+				if !flags["late-rendered"] {
+					return false
+				}
+			case "C13.X1":
+				if !flags["rendered-without"] || (kind != "pStyle" && kind != "rStyle" && kind != "tblStyle") {
+					return false
+				}
+			default:
+				return false
+			}
+			return walk(c, func(op Op, s at) bool { return op.K == "render" && s.saved && !s.opened })
+		},
+	},
+	{
 		ID:     kfTemplate,
 		Clause: "C13.X1",
 		Desc:   "ApplyTableStyle with one of the library's TableStyleTemplate constants writes w:tblStyle with that name, but no style with such an id is defined anywhere",
@@ -134,7 +165,9 @@ var findings = []kit.Finding[Case]{
 			if !ok || kind != "tblStyle" || f.Clause != "C13.X1" {
 				return false
 			}
-			return hasOp(c, func(op Op) bool { return op.K == "tblstyle" && len(op.I) > 1 && op.I[1] != 0 && len(op.S) > 0 && op.S[0] == id })
+			return hasOp(c, func(op Op) bool {
+				return op.K == "tblstyle" && len(op.I) > 1 && op.I[1] != 0 && len(op.S) > 0 && op.S[0] == id
+			})
 		},
 	},
 	{
